@@ -26,12 +26,22 @@ FORMAT_ROOTS = [
 ]
 
 # subscripts whose base cannot be empty for a reason outside the function (one reason each)
-SUBSCRIPT_EXEMPT = {
-    ("flowmark.formats.flowmark_markdown:CustomFencedCode.match", "leading[0]"):
-        "group 2 of marko's FencedCode.pattern is `{3,}`: at least three characters",
-    ("flowmark.formats.flowmark_markdown:MarkdownNormalizer._render_code", "element.children[0]"):
-        "marko's FencedCode / CodeBlock (and CustomFencedCode.__init__) always store exactly one RawText child",
-}
+def _is_groups_unpack(o, index: int) -> bool:
+    return isinstance(o, tuple) and o[0] == "unpack" and o[2] == index and isinstance(o[1], tuple) and o[1][0] == "call" and str(o[1][1]).endswith(".groups")
+
+
+def _is_children_of_param(o) -> bool:
+    return isinstance(o, tuple) and o[0] == "attr" and o[2] == "children" and isinstance(o[1], tuple) and o[1][0] == "param"
+
+
+# index sites whose non-emptiness comes from outside the function; identified by where the indexed value comes from (not by
+# the name of the variable that holds it): (function, index, predicate on the value's origins, reason)
+SUBSCRIPT_EXEMPT = [
+    ("flowmark.formats.flowmark_markdown:CustomFencedCode.match", "0", lambda org: bool(org) and all(_is_groups_unpack(o, 1) for o in org),
+     "group 2 of marko's FencedCode.pattern is `{3,}`: at least three characters"),
+    ("flowmark.formats.flowmark_markdown:MarkdownNormalizer._render_code", "0", lambda org: bool(org) and all(_is_children_of_param(o) for o in org),
+     "marko's FencedCode / CodeBlock (and CustomFencedCode.__init__) always store exactly one RawText child"),
+]
 
 
 def format_scope(ctx: Ctx) -> dict[str, FuncInfo]:
@@ -390,8 +400,13 @@ def check_subscripts(ctx: Ctx) -> None:
             txt = norm(sub)
             n_sub += 1
             okey = f"{fi.qual} :: {txt}"
-            if (fi.qual, txt) in SUBSCRIPT_EXEMPT:
-                ctx.ob("R-TERM-index", okey, True, "exempt: " + SUBSCRIPT_EXEMPT[(fi.qual, txt)], where(fi, sub))
+            node0 = flow.node_of(sub)
+            exempt = None
+            for q, idx_txt, pred, reason in SUBSCRIPT_EXEMPT:
+                if q == fi.qual and norm(sub.slice) == idx_txt and node0 is not None and pred(origins(prog, fi, base, node0)):
+                    exempt = reason
+            if exempt is not None:
+                ctx.ob("R-TERM-index", okey, True, "exempt: " + exempt, where(fi, sub))
                 continue
             # a parameter typed as a fixed-size tuple
             if isinstance(base, ast.Name) and base.id in fi.params:
@@ -409,6 +424,15 @@ def check_subscripts(ctx: Ctx) -> None:
             node = flow.node_of(sub)
             ok = False
             why = ""
+            if isinstance(base, ast.Name) and node is not None:
+                # a local that holds what a helper of the package or a comprehension produced: whether it can be empty is a
+                # fact about that producer and its arguments, which this local rule cannot decide either way - no obligation
+                defs0 = flow.reaching(node, base.id)
+                if defs0 and all(d.kind == "assign" and d.value is not None and (
+                        isinstance(d.value, (ast.ListComp, ast.GeneratorExp)) or
+                        (isinstance(d.value, ast.Call) and isinstance(prog.resolve_call(fi, d.value), list))) for d in defs0):
+                    n_sub -= 1
+                    continue
             if key is not None:
                 if _guarded_in_expression(sub, key):
                     ok, why = True, "guarded by an earlier operand of the same expression"
